@@ -34,7 +34,7 @@ Section Shapes.
     GH_pend : pend g h x' = pend g h x0;
     GH_trc : trcount g h x' = trcount g h x0;
     GH_nd : entv s h = MARK -> needsC g h x' <= needsC g h x0;
-    GH_hfr : hugec g h held' + hfr g h x' = hugec g h (ms_held s) + hfr g h x0
+    GH_hfr : hugec g h held' + hfr g h x' <= hugec g h (ms_held s) + hfr g h x0
   }.
   (* ... and with the same held list *)
   Record gsame (s : mstate) (x0 x' : thr) (h : N) : Prop := {
@@ -46,7 +46,7 @@ Section Shapes.
     GS_hfr : hfr g h x' = hfr g h x0
   }.
   Lemma gsame_H s x0 x' h : gsame s x0 x' h -> gsameH s (ms_held s) x0 x' h.
-  Proof. intros [A B C D E F]. constructor; auto; intros; rewrite ?A, ?F by assumption; reflexivity. Qed.
+  Proof. intros [A B C D E F]. constructor; auto; intros; rewrite ?A, ?F by assumption; lia. Qed.
 
   Definition mk_thr (s : mstate) (t : nat) (x' : thr) (held' : list (N * nat)) : mstate :=
     set_held (set_thr s t x') held'.
